@@ -263,6 +263,7 @@ fn crash_profile() -> crate::gen::GenProfile {
         verdicts: false,
         tiny: true,
         big_values: false,
+        big_pool_pct: 0,
     }
 }
 
